@@ -725,4 +725,20 @@ theorem drift_active (est : TArr → Option (Int × Int)) (b0 b1 : Nat) (a b : T
 
 end round4
 
+/-! ## Round 6: inactive corrections and their other options -/
+
+section round6
+open Darsia.Corrections
+
+/-- (near-definitional: the model of the inactive path does not read the options.) an INACTIVE ColorCorrection ignores every
+other option - clip, white balancing, colour-balancing mode, balancing branch - and leaves float pixel values as they are,
+also outside [0, 1] and negative ones. -/
+theorem colour_inactive_ignores_options (o o' : ColourOpts) (a : TArr) :
+    colourInactive o a = colourInactive o' a ∧
+    (a.dt = .f64 → (colourInactive o a).arr.agree a.arr) := by
+  refine ⟨rfl, fun h => ⟨rfl, rfl, fun i j _ _ _ _ => ?_⟩⟩
+  simp only [colourInactive, h, convVal]
+
+end round6
+
 end Darsia.C10
